@@ -53,7 +53,10 @@ def run_pipe(case):
     aux = {'extend_leg': legs[0], 'extend_int': 1}
     if case.get('table'):
         out['method_table'] = ops.method_table(p, aux)
-    out['ops'] = ops.apply_all(p, aux, base_pipe=dict(out), arr_seed=case.get('arr_seed'))
+    if OPS_ALL or case.get('arr_seed') is not None:
+        out['ops'] = ops.apply_all(p, aux, base_pipe=dict(out), arr_seed=case.get('arr_seed'))
+    else:
+        out['ops'] = None
     # conj
     c = p.conj()
     out['conj'] = {'qconj': int(c.qconj), 'legs_qconj': [int(l.qconj) for l in c.legs],
@@ -418,8 +421,13 @@ def run_array(case):
     return out
 
 
+OPS_ALL = True
+
+
 def main():
+    global OPS_ALL
     payload = json.load(open(sys.argv[1]))
+    OPS_ALL = bool(payload.get('ops_all', True))
     f = {'pipe': run_pipe, 'leg': run_leg, 'array': run_array}[payload['kind']]
     res = []
     for c in payload['cases']:
